@@ -60,6 +60,19 @@ fn run(rng: &mut Rng, _idx: u64, tier: Tier) -> CaseOut {
         net.regs.push(Reg { src: v, tgt: v, sign: Some(false), observable: true });
     }
     let mut f = gen_formula(rng, &fopts, &net.names);
+    if fragment && rng.chance(1, 5) {
+        // sub-formulae that resemble the shortcut patterns but belong to the fragment
+        let near = match rng.below(3) {
+            0 => hyb(Hyb::Bind, "q", None, un(Un::AG, var("q"))),
+            1 => hyb(Hyb::Bind, "q", None, un(Un::EF, var("q"))),
+            _ => hyb(Hyb::Exists, "q", None, un(Un::AG, un(Un::EF, var("q")))),
+        };
+        f = match rng.below(3) {
+            0 => bin(Bin::And, f, near),
+            1 => bin(Bin::Or, near, f),
+            _ => un(Un::EF, bin(Bin::And, near, f)),
+        };
+    }
     if fragment && fopts.hybrids && rng.chance(1, 4) {
         // the attractor pattern belongs to the fragment
         f = bin(Bin::And, f, hyb(Hyb::Bind, "q", None, un(Un::AG, un(Un::EF, var("q")))));
